@@ -22,6 +22,8 @@ def build(cfg, values=None):
         # field recovery of a stiffened bay: each component with its own slice of the amplitude vector (harness shared with C13)
         from . import c13
         return c13.build(cfg, values)
+    if cfg['variant'] == 'assembly-fields':
+        return build_assembly(cfg, values)
     model, m, n, variant = cfg['model'], cfg['m'], cfg['n'], cfg['variant']
     P, cores = cfg['P'], cfg['cores']
     ctx = PanelCtx(values=values, seed=cfg.get('seed', 0))
@@ -131,6 +133,80 @@ def build(cfg, values=None):
     return obs, assumptions, info
 
 
+def build_assembly(cfg, values=None):
+    """PanelAssembly.uvw / strain / stress for a group: every panel of the group, in the order of the assembly, evaluated with ITS OWN
+    slice of the amplitude vector, its own geometry, flags, model and laminate on its own grid"""
+    ctx = PanelCtx(values=values, seed=cfg.get('seed', 0))
+    obs = []
+    gx, gy = cfg['grid']
+    with ctx.shadow():
+        from compmech.panel.assembly import PanelAssembly
+        panels = []
+        for q, (model, m, n, grp) in enumerate(cfg['panels']):
+            p = ctx.new_panel(model, m, n, prefix='p%d_' % q)
+            p.group = grp
+            p.calc_k0(silent=True)          # public sequence (sets model, r, F)
+            panels.append(p)
+        asm = PanelAssembly(panels)
+        asm.out_num_cores = cfg['cores']
+        size = asm.get_size()
+        c = np.zeros(size, dtype=object)
+        for k in range(size):
+            c[k] = ctx.V('c%d' % k)
+        c0 = c.copy()
+        pos = 0
+        slices = []
+        for p in panels:
+            slices.append((pos, pos + 3 * p.m * p.n))
+            pos += 3 * p.m * p.n
+        for grp in sorted({g for (_, _, _, g) in cfg['panels']}):
+            members = [q for q, p in enumerate(panels) if p.group == grp]
+            ru = asm.uvw(c, grp, gridx=gx, gridy=gy)
+            rs = asm.strain(c, grp, gridx=gx, gridy=gy, NLterms=False)
+            rt = asm.stress(c, grp, gridx=gx, gridy=gy, NLterms=False)
+            for nm_, r_ in (('uvw', ru), ('strain', rs), ('stress', rt)):
+                obs.append(('group-%s-%s-count' % (grp, nm_), Sym.lift(len(r_['x'])), Sym.lift(len(members))))
+            for pos_, q in enumerate(members):
+                if pos_ >= len(ru['x']) or pos_ >= len(rs['x']) or pos_ >= len(rt['x']):
+                    break
+                p = panels[q]
+                model = cfg['panels'][q][0]
+                S = series_of(p, model)
+                ops = E.donnell_ops('cpanel' if model == 'cpanel' else 'plate', r=p.r)
+                cs = c0[slices[q][0]:slices[q][1]]
+                F = p._verif_lam.ABD
+                Fl = [[F[i, j] for j in range(6)] for i in range(6)]
+                for iy in range(gy):
+                    for ix in range(gx):
+                        x = p.a * Fraction(ix, gx - 1)
+                        y = p.b * Fraction(iy, gy - 1)
+                        xi, eta = Sym.lift(Fraction(2 * ix, gx - 1) - 1), Sym.lift(Fraction(2 * iy, gy - 1) - 1)
+                        tag = '%s#%d[%d,%d]' % (grp, q, iy, ix)
+                        for r_ in (ru, rs, rt):
+                            obs.append(('assembly-x-%s' % tag, r_['x'][pos_][iy][ix], x))
+                            obs.append(('assembly-y-%s' % tag, r_['y'][pos_][iy][ix], y))
+                        obs.append(('assembly-u-%s' % tag, ru['u'][pos_][iy][ix], PW.field(ctx.atoms, S, cs, 'u', 0, 0, xi, eta)))
+                        obs.append(('assembly-v-%s' % tag, ru['v'][pos_][iy][ix], PW.field(ctx.atoms, S, cs, 'v', 0, 0, xi, eta)))
+                        obs.append(('assembly-w-%s' % tag, ru['w'][pos_][iy][ix], PW.field(ctx.atoms, S, cs, 'w', 0, 0, xi, eta)))
+                        obs.append(('assembly-phix-%s' % tag, ru['phix'][pos_][iy][ix], -PW.field(ctx.atoms, S, cs, 'w', 1, 0, xi, eta)))
+                        obs.append(('assembly-phiy-%s' % tag, ru['phiy'][pos_][iy][ix], -PW.field(ctx.atoms, S, cs, 'w', 0, 1, xi, eta)))
+                        eps = PW.strains(ctx.atoms, S, ops, cs, xi, eta, NL=0)
+                        for nm, val in zip(E.STRAINS, eps):
+                            obs.append(('assembly-%s-%s' % (nm, tag), rs[nm][pos_][iy][ix], val))
+                        for nm, val in zip(('Nxx', 'Nyy', 'Nxy', 'Mxx', 'Myy', 'Mxy'), PW.resultants(Fl, eps)):
+                            obs.append(('assembly-%s-%s' % (nm, tag), rt[nm][pos_][iy][ix], val))
+        for k in range(size):
+            if c[k] is not c0[k]:
+                obs.append(('caller-c-unchanged[%d]' % k, Sym.lift(1), Sym.lift(0)))
+    assumptions = []
+    if values is None:
+        for q, p in enumerate(panels):
+            assumptions += positivity(ctx, p, cfg['panels'][q][0])
+    info = {'atoms': len(ctx.atoms.table), 'stats': {k: v.stats.as_dict() for k, v in ctx.kernels.mods.items()},
+            'values': {k: str(v) for k, v in ctx.used_values.items()}}
+    return obs, assumptions, info
+
+
 def configs(tier, seed):
     out = []
     quick = tier == 'quick'
@@ -165,6 +241,11 @@ def configs(tier, seed):
     for name, st in (('B2+T2', [B2(1, 2), T(1, 1, 2, 1)]), ('T2+B2', [T(1, 1, 2, 1), B2(1, 2)]), ('T2+T2-unequal', [T(1, 1, 1, 2), T(2, 1, 2, 1)]),
                      ('B2+B2', [B2(1, 2), B2(2, 1, True)])):
         out.append({'variant': 'bay-fields', 'm': 1, 'n': 2, 'stiffeners': st, 'group': 'bay-fields:%s' % name, 'model': 'bay', 'P': 2, 'cores': 2})
+    # groups of a panel assembly: panels of different size / model / group, interleaved
+    out.append({'variant': 'assembly-fields', 'panels': [('plate', 2, 1, 'skin'), ('plate', 1, 2, 'flange'), ('cpanel', 1, 1, 'skin')], 'grid': (2, 3), 'cores': 2,
+                'm': 2, 'n': 1, 'model': 'assembly', 'P': 6, 'group': 'assembly-groups'})
+    out.append({'variant': 'assembly-fields', 'panels': [('plate', 1, 1, 'b'), ('plate', 2, 2, 'a'), ('plate', 1, 2, 'b')], 'grid': (3, 2), 'cores': 1,
+                'm': 2, 'n': 2, 'model': 'assembly', 'P': 6, 'group': 'assembly-groups'})
     out[0]['canary'] = True
     out[-1]['canary'] = True
     out[len(out) // 2]['canary'] = True
@@ -185,7 +266,7 @@ def main():
                   'points': sorted({c['P'] for c in cf}), 'configurations': len(cf)}
     run.assume('a, b, r > 0', 'function tables = Bardell polynomials (C10)', 'prange chunks executed sequentially: chunks write disjoint rows (checked by bounds-checked views); data races are outside')
     run.encoded('compmech/stiffpanelbay/stiffpanelbay.py', 'StiffPanelBay.uvw_skin, uvw_stiffener')
-    run.outside = ['real OpenMP scheduling', 'PanelAssembly.uvw/strain/stress plotting groups', 'orders above the bound']
+    run.outside = ['real OpenMP scheduling', 'plotting', 'orders above the bound']
     res = pmap(kprop.job, [(__name__, c) for c in cf])
     res = kprop.explore_loci(__name__, res, run)      # second pass: the equality loci the executed code branched on
     kprop.handle(run, res, build, 'field values differ from the series/kinematics')
